@@ -643,6 +643,57 @@ func (w *wd) attesters() (maj, rest []*chain.Account) {
 	return
 }
 
+// attestersSplit: for rounds in which the validators disagree. The majority is a minimal set with
+// >= 2/3 of the shares; the validator `minority` (the relayer) is left out of it whenever the
+// others can reach 2/3 without it, and somebody is left over whenever the stake distribution
+// allows it at all.
+func (w *wd) attestersSplit(minority *chain.Account) (maj, rest []*chain.Account) {
+	snap, _ := w.c.App.ValsetKeeper.GetCurrentSnapshot(w.c.Ctx())
+	share := map[string]sdkmath.Int{}
+	total := sdkmath.ZeroInt()
+	if snap != nil {
+		total = snap.TotalShares
+		for _, v := range snap.Validators {
+			share[v.Address.String()] = v.ShareCount
+		}
+	}
+	of := func(v *chain.Account) sdkmath.Int {
+		if s, ok := share[v.ValBech()]; ok {
+			return s
+		}
+		return sdkmath.ZeroInt()
+	}
+	split := func(order []*chain.Account) (maj, rest []*chain.Account) {
+		sum := sdkmath.ZeroInt()
+		for _, v := range order {
+			if !total.IsZero() && sum.MulRaw(3).GTE(total.MulRaw(2)) {
+				rest = append(rest, v)
+				continue
+			}
+			maj = append(maj, v)
+			sum = sum.Add(of(v))
+		}
+		return
+	}
+	var order []*chain.Account
+	for _, i := range w.r.Perm(len(w.vals)) {
+		if w.vals[i] != minority {
+			order = append(order, w.vals[i])
+		}
+	}
+	if minority != nil {
+		order = append(order, minority)
+	}
+	maj, rest = split(order)
+	if len(rest) == 0 {
+		// heaviest first: leaves the largest number of validators over
+		order = append([]*chain.Account{}, w.vals...)
+		sort.SliceStable(order, func(i, j int) bool { return of(order[i]).GT(of(order[j])) })
+		maj, rest = split(order)
+	}
+	return
+}
+
 func (w *wd) valIndex(a *chain.Account) int {
 	for i, v := range w.vals {
 		if v == a {
